@@ -586,14 +586,10 @@ FAMILY = dict(isotope='radiogenic/isotope', fixed='radiogenic/fixed', radio_off=
               henning='melt/henning', spohn='melt/spohn', melt_off='melt/off')
 
 
-def run_case(c):
-    from mc import env
-    env.tidalpy()
+def _attempt(c):
     V = Viol()
     h = hashlib.sha1(c['kind'].encode())
-    status = 'pass'
-    worst = {}
-    info = []
+    status, worst, info, raised = 'pass', {}, [], None
     try:
         r = KINDS[c['kind']](c, V, h)
         if isinstance(r, str):
@@ -602,8 +598,23 @@ def run_case(c):
             worst = dict(r or {})
             info = worst.pop('info', [])
     except CodeRaised as e:
+        raised = e
         V.add(f"C19/{FAMILY[c['kind']]}/exception/{e.args[0]}", msg=e.args[1])
-    return dict(status=status, viol=V.list(), obs=h.hexdigest(), worst=worst, info=info)
+    return dict(status=status, viol=V.list(), obs=h.hexdigest(), worst=worst, info=info), raised
+
+
+def run_case(c):
+    from mc import env
+    env.tidalpy()
+    r, raised = _attempt(c)
+    if raised is not None:
+        # An exception of the code under test must be deterministic to count.  (Observed once: 16 workers compiling the
+        # same numba function into a cold shared cache -> transient "TypeError: bad argument type for built-in operation".)
+        r2, raised2 = _attempt(c)
+        if raised2 is None:
+            r2['info'] = list(r2['info']) + [f'transient exception on first attempt, absent on retry: {raised.args[0]}: {raised.args[1]}']
+            return r2
+    return r
 
 
 def replay(case):
